@@ -17,6 +17,7 @@ import (
 	"log"
 	"os"
 	"runtime/debug"
+	"strings"
 
 	"github.com/goghcrow/go-co/rewriter"
 	"github.com/goghcrow/go-loader"
@@ -40,7 +41,7 @@ func main() {
 		}
 	}()
 	var opts []loader.Option
-	if len(os.Args) > 4 && os.Args[4] == "loadtest" {
+	if len(os.Args) > 4 && os.Args[4] == "loadtest" && os.Args[1] != "multi" {
 		opts = append(opts, loader.WithLoadTest())
 	}
 	switch os.Args[1] {
@@ -50,6 +51,24 @@ func main() {
 		rewriter.CompileStages(os.Args[2], os.Args[3], opts...)
 	case "gogen":
 		rewriter.GoGen(os.Args[2])
+	case "multi":
+		// codrv multi <srcRoot> <dstRoot> pkg...: one Compile per package directory, each
+		// with its own verdict line (used where most programs are expected to be rejected)
+		for _, pkg := range os.Args[4:] {
+			func() {
+				defer func() {
+					if p := recover(); p != nil {
+						msg := fmt.Sprint(p)
+						if i := strings.IndexByte(msg, '\n'); i >= 0 {
+							msg = msg[:i]
+						}
+						fmt.Printf("PKG %s PANIC %s\n", pkg, msg)
+					}
+				}()
+				rewriter.Compile(os.Args[2]+"/"+pkg, os.Args[3]+"/"+pkg)
+				fmt.Printf("PKG %s OK\n", pkg)
+			}()
+		}
 	default:
 		fmt.Fprintln(os.Stderr, "bad mode")
 		os.Exit(2)
